@@ -408,6 +408,44 @@ func runC19(c *Ctx) {
 				if rejects >= 2 {
 					oneAt, how = true, "both parts are rejected when they contain \"@\""
 				}
+				// strings.Cut splits at the FIRST "@": the part before it cannot contain one, so rejecting the part
+				// after it is enough
+				if !oneAt {
+					var afterObj types.Object
+					ast.Inspect(body, func(n ast.Node) bool {
+						if as, ok := n.(*ast.AssignStmt); ok && len(as.Lhs) == 3 && len(as.Rhs) == 1 {
+							if call, ok := ast.Unparen(as.Rhs[0]).(*ast.CallExpr); ok && len(call.Args) == 2 {
+								if fn := Callee(info, call); fn != nil && fn.Pkg() != nil && fn.Pkg().Path() == "strings" && fn.Name() == "Cut" {
+									if s, ok := stringLit(info, call.Args[1]); ok && s == "@" {
+										afterObj = identObj(info, as.Lhs[1])
+									}
+								}
+							}
+						}
+						return true
+					})
+					if afterObj != nil {
+						ast.Inspect(body, func(n ast.Node) bool {
+							ifs, ok := n.(*ast.IfStmt)
+							if !ok || len(ifs.Body.List) == 0 {
+								return true
+							}
+							if r, isRet := ifs.Body.List[len(ifs.Body.List)-1].(*ast.ReturnStmt); !isRet || classifyReturn(info, r) != retNonNil {
+								return true
+							}
+							for _, t := range splitOr(ifs.Cond) {
+								if call, ok := ast.Unparen(t).(*ast.CallExpr); ok && len(call.Args) == 2 && identObj(info, call.Args[0]) == afterObj {
+									if fn := Callee(info, call); fn != nil && fn.Pkg() != nil && fn.Pkg().Path() == "strings" && (fn.Name() == "Contains" || fn.Name() == "ContainsRune") {
+										if s, ok := stringLit(info, call.Args[1]); ok && s == "@" {
+											oneAt, how = true, "strings.Cut at the first \"@\" and the part after it is rejected when it contains another"
+										}
+									}
+								}
+							}
+							return true
+						})
+					}
+				}
 			}
 		}
 		c.Ob("PARSE-ALL-OR-NOTHING", "newMultipleTokenProvider/exactly-one-at", fr.Decl.Pos(), oneAt, true, "an entry with more than one '@' is rejected: %s", how)
